@@ -39,7 +39,12 @@ def sdigest(schema):
     """the structural digest as text; a schema object whose description can no longer even be read (a default that is no
     longer a ValueInfo, ...) has certainly changed"""
     try:
-        return enc(F.digest(schema))
+        # plus the lookup tables behind getinfo() / the duplicate checks, which extending types copy
+        maps = []
+        for t in [schema] + [schema.gettype(n) for n in schema.gettypenames()]:
+            if hasattr(t, "_keymap"):
+                maps.append([getattr(t, "name", None), sorted(t._keymap), sorted(t._attrmap)])
+        return enc(F.digest(schema)) + repr(maps)
     except Exception as e:
         return "undigestible:%s:%s" % (type(e).__name__, e)
 
